@@ -173,6 +173,11 @@ def claim_templates(ctx):
     add(XS, body="\t_ = s[len(s)]\n\treturn \"ok\" + fx()")
     add(XS, body="\tys := append(xs, 1)\n\t_ = ys[len(xs)]\n\treturn \"ok\" + fx()")
     add(XS, body="\tm := map[int]int{len(xs): 1}\n\t_ = m[len(m)]\n\treturn \"ok\" + fx()")
+    # named map / slice / string types (the rule's type filter must look at the underlying type the right way round)
+    add(XS, body="\ttype registry map[int]string\n\tr := registry{0: \"a\"}\n\t_ = r[len(r)]\n\treturn \"ok\" + fx()")
+    add(XS, body="\ttype ints []int\n\tys := ints(xs)\n\t_ = ys[len(ys)]\n\treturn \"ok\" + fx()")
+    add(XS, body="\ttype text string\n\tt := text(s)\n\t_ = t[len(t)]\n\treturn \"ok\" + fx()")
+    add(XS, body="\ttype counts map[string]int\n\tc := counts{s: 1}\n\tok := len(c) >= 0\n\treturn fmt.Sprint(ok, fx())")
     # nilValReturn: the function under analysis is a closure so that its returned value can be observed
     add([("e", "error")], body="\tf := func(err error) error {\n\t\tif err == nil {\n\t\t\treturn err\n\t\t}\n\t\treturn nil\n\t}\n\treturn fmt.Sprint(f(e) == nil, fx())")
     add([("ip", "*int")], body="\tf := func(p *int) *int {\n\t\tif p == nil {\n\t\t\treturn p\n\t\t}\n\t\treturn nil\n\t}\n\treturn fmt.Sprint(f(ip) == nil, fx())")
